@@ -700,8 +700,9 @@ func (c *descrCtx) write(env *unitEnv, lhs, rhs ast.Expr, isDelete bool) {
 		if id, ok := se.X.(*ast.Ident); ok && !c.own(env, id) {
 			if ci, ok := env.inCase[c.curStmt]; ok && !ci.dflt {
 				if tag := ci.tag; c.keyDetermining(env, tag) {
-					lits := len(ci.consts) > 0
-					if lits {
+					// exactly one constant: a branch for two keys ("a", "b" or a == "a" || a == "b")
+					// would let two map entries write the same field — the later one wins.
+					if len(ci.consts) == 1 {
 						t := id.Name + "." + se.Sel.Name
 						if c.keyed[t] == nil {
 							c.keyed[t] = map[ast.Node]bool{}
